@@ -43,6 +43,7 @@ type RunStats struct {
 	Requested   int            `json:"requested"`
 	Rule        string         `json:"rule"`
 	API         map[string]int `json:"api_calls,omitempty"`
+	APIKeys     []string       `json:"api_keys,omitempty"`
 	nt          map[string]bool
 	start       time.Time
 }
@@ -72,6 +73,7 @@ func (s *RunStats) Write() {
 	sort.Strings(s.NonTrivial)
 	s.WallS = time.Since(s.start).Seconds()
 	s.API = APIHits
+	s.APIKeys = AllAPIKeys
 	b, _ := json.Marshal(s)
 	_ = os.WriteFile(path, b, 0o644)
 }
